@@ -214,8 +214,16 @@ func (e mwEngine) Gen(t *rapid.T, tier string) any {
 		var cl mwClient
 		now := int64(mwEpoch)
 		nops := rapid.IntRange(1, maxOps).Draw(t, "nops")
+		uniq := hasKind(c.Stack, "recvunique")
+		if uniq {
+			nops = rapid.IntRange(3, maxOps+6).Draw(t, "nops-unique")
+		}
 		for i := 0; i < nops; i++ {
-			switch k := rapid.IntRange(0, 15).Draw(t, "opk"); {
+			k := rapid.IntRange(0, 15).Draw(t, "opk")
+			if uniq && rapid.IntRange(0, 3).Draw(t, "force-event") > 0 {
+				k = 6 // window boundaries are crossed by EVENT repeats
+			}
+			switch {
 			case k <= 3:
 				cl.Script = append(cl.Script, simrt.Op{Kind: "send", Msg: &simrt.Msg{T: "REQ", Sub: rapid.SampledFrom(subs).Draw(t, "sub"), Filters: mkFilters()}})
 			case k <= 5:
@@ -257,8 +265,15 @@ func (e mwEngine) Gen(t *rapid.T, tier string) any {
 			}
 		}
 		nd := rapid.IntRange(0, 6).Draw(t, "ndown")
+		sendUniq := hasKind(c.Stack, "sendunique")
+		if sendUniq {
+			nd = rapid.IntRange(3, 14).Draw(t, "ndown-unique")
+		}
 		for i := 0; i < nd; i++ {
 			d := mwDown{T: rapid.SampledFrom([]string{"EOSE", "EVENT", "EVENT", "EVENT", "OK", "NOTICE", "CLOSED", "CLOSED", "COUNT", "AUTH"}).Draw(t, "dt")}
+			if sendUniq && rapid.IntRange(0, 3).Draw(t, "force-down-event") > 0 {
+				d.T = "EVENT"
+			}
 			d.Sub = rapid.SampledFrom(subs[:quota+2]).Draw(t, "dsub")
 			d.Ev = rapid.IntRange(0, nev-1).Draw(t, "dev")
 			cl.Down = append(cl.Down, d)
